@@ -265,3 +265,93 @@ Proof.
   - vm_compute. discriminate.
   - vm_compute. reflexivity.
 Qed.
+
+(* ---------- the scenario instance's X-Ref templates, evaluated by the templater model ---------- *)
+Lemma tassoc_reqmap (m : reqmap bytes) r :
+  tassoc (map (fun p => (fst p, tval_of_stepvars (snd p))) m) r = option_map tval_of_stepvars (rm_get m r).
+Proof.
+  induction m as [|[k v] m IH]; [reflexivity|]. cbn [map fst snd tassoc rm_get].
+  destruct (beq k r); [reflexivity|exact IH].
+Qed.
+
+Lemma tassoc_vars (m : list (bytes * bytes)) k :
+  tassoc (map (fun p => (fst p, TStr (snd p))) m) k = option_map TStr (assoc m k).
+Proof.
+  induction m as [|[a v] m IH]; [reflexivity|]. cbn [map fst snd tassoc assoc].
+  destruct (beq a k); [reflexivity|exact IH].
+Qed.
+
+Lemma tassoc_stepvars_post (sv : stepvars bytes) :
+  match tval_of_stepvars sv with
+  | TMap l => tassoc l s_postproc = option_map tval_of_vars (sv_post sv)
+  | _ => False
+  end.
+Proof.
+  unfold tval_of_stepvars. destruct (sv_pre sv), (sv_post sv); reflexivity.
+Qed.
+
+Lemma chain_captured_tok src (t : ctree) r rest :
+  eval_chain (s_request :: r :: s_postproc :: s_tok :: rest) (Some (tval_of_tree src t))
+  = eval_chain rest (option_map TStr (c_captured_tok t r)).
+Proof.
+  unfold tval_of_tree, tval_of_reqmap, c_captured_tok.
+  cbn [eval_chain]. change (tassoc _ s_request) with (Some (tval_of_reqmap (t_req t))).
+  unfold tval_of_reqmap. cbn [eval_chain]. rewrite tassoc_reqmap.
+  destruct (rm_get (t_req t) r) as [sv|]; cbn [option_map eval_chain].
+  - pose proof (tassoc_stepvars_post sv) as H. destruct (tval_of_stepvars sv) as [| |l|]; try contradiction.
+    rewrite H. destruct (sv_post sv) as [m|]; cbn [option_map eval_chain].
+    + unfold tval_of_vars. now rewrite tassoc_vars.
+    + now rewrite eval_chain_missing; destruct rest.
+  - now rewrite eval_chain_missing; destruct rest.
+Qed.
+
+(* TRef r / TRefBad r of the shot model are what the templater model computes for the header
+   templates {{.request.r.postprocessor.tok}} and v={{.request.r.postprocessor.tok.id}} on the
+   tree of the step: the rendering decision follows the variable flow of THIS shot *)
+Lemma render_ref src (t : ctree) r :
+  render false (ref_tmpl r) (tval_of_tree src t)
+  = Some (match c_captured_tok t r with Some v => v | None => s_novalue end).
+Proof.
+  unfold render, ref_tmpl. cbn [exec_tmpl]. rewrite chain_captured_tok. cbn [eval_chain].
+  destruct (c_captured_tok t r); cbn; now rewrite ?app_nil_r.
+Qed.
+
+Lemma render_refbad html src (t : ctree) r :
+  render html (refbad_tmpl r) (tval_of_tree src t)
+  = match c_captured_tok t r with
+    | Some _ => None
+    | None => Some ([118;61]%N ++ (if html then [] else s_novalue))
+    end.
+Proof.
+  unfold render, refbad_tmpl. cbn [exec_tmpl]. rewrite chain_captured_tok.
+  destruct (c_captured_tok t r); cbn [option_map eval_chain]; [reflexivity|].
+  cbn. destruct html; cbn; now rewrite ?app_nil_r.
+Qed.
+
+Lemma c_render_ref_spec rq (t : ctree) w src r :
+  cq_tmpl rq = TRef r ->
+  exists rd, c_render rq t w = (w, Some rd) /\
+    render false (ref_tmpl r) (tval_of_tree src t)
+    = Some (match rd_ref rd with Some (Some v) => v | _ => s_novalue end).
+Proof.
+  intros H. unfold c_render. rewrite H. eexists. split; [reflexivity|]. cbn [rd_ref].
+  rewrite render_ref. destruct (c_captured_tok t r); reflexivity.
+Qed.
+
+Lemma c_render_refbad_spec rq (t : ctree) w src r :
+  cq_tmpl rq = TRefBad r ->
+  match snd (c_render rq t w) with
+  | None => render (cq_html rq) (refbad_tmpl r) (tval_of_tree src t) = None
+  | Some rd => rd_ref rd = Some (render (cq_html rq) (refbad_tmpl r) (tval_of_tree src t))
+  end.
+Proof.
+  intros H. unfold c_render. rewrite H, render_refbad.
+  destruct (c_captured_tok t r); reflexivity.
+Qed.
+
+Lemma render_refbad_fails_iff html src (t : ctree) r :
+  render html (refbad_tmpl r) (tval_of_tree src t) = None <-> c_captured_tok t r <> None.
+Proof.
+  rewrite render_refbad. destruct (c_captured_tok t r); split; intros H; try discriminate; try reflexivity.
+  now elim H.
+Qed.
